@@ -35,6 +35,9 @@ var jsScripts = []string{
 	"S-admission-error-then-kill",
 	"S-deleted-before-first-task",
 	"S-deleted-in-retry-backoff",
+	"F4-finished-pod-recorded-lost-then-corrected",
+	"F10-kill-conflict-leaves-unrecorded-task",
+	"S-pending-timeout-then-succeeds-while-terminating",
 }
 
 type jsCfg struct {
@@ -116,6 +119,7 @@ type jsImpl struct {
 	jctx  *jobcontroller.Context
 	recon *jobcontroller.Reconciler
 	q     *SimQueue
+	terms int
 }
 
 func newJSImpl(cfg jsCfg, m *mJob, now int64) *jsImpl {
@@ -249,6 +253,14 @@ func (im *jsImpl) kubelet(name, step string) {
 		st := contStart()
 		p.Status.Phase = phase
 		p.Status.ContainerStatuses = []corev1.ContainerStatus{{Name: "c", State: corev1.ContainerState{Terminated: &corev1.ContainerStateTerminated{Reason: reason, ExitCode: code, StartedAt: st, FinishedAt: now}}}}
+		im.terms++
+		if im.terms%2 == 0 && reason != "OOMKilled" && !st.IsZero() {
+			// every other termination is that of a container that was OOM-killed once and
+			// restarted before (restartPolicy OnFailure): lastState holds the earlier kill
+			p.Status.ContainerStatuses[0].RestartCount = 1
+			p.Status.ContainerStatuses[0].LastTerminationState.Terminated = &corev1.ContainerStateTerminated{Reason: "OOMKilled", ExitCode: 137,
+				StartedAt: metav1.NewTime(st.Add(-2 * time.Second)), FinishedAt: metav1.NewTime(st.Add(-1 * time.Second))}
+		}
 		im.api.putPod(p)
 	}
 	switch step {
@@ -496,6 +508,64 @@ func runJobSync(ctx *RunCtx) *Result {
 				do(jsOp{Kind: "sync"})
 				do(jsOp{Kind: "kill", T: im.api.now()})
 				do(jsOp{Kind: "clock", T: im.api.now() + 2})
+			case "F4-finished-pod-recorded-lost-then-corrected":
+				// the witness of c11_finish_time_stable_refuted: the Pod finishes while the Pod cache
+				// has not seen it at all; recorded lost at the time of the pass, corrected later
+				settle()
+				do(jsOp{Kind: "sync"})
+				do(jsOp{Kind: "advjob", N: 1000})
+				do(jsOp{Kind: "kubelet", Name: p0, Step: "schedule"})
+				do(jsOp{Kind: "clock", T: now + 5})
+				do(jsOp{Kind: "kubelet", Name: p0, Step: "run"})
+				do(jsOp{Kind: "clock", T: now + 10})
+				do(jsOp{Kind: "kubelet", Name: p0, Step: "succeed"})
+				do(jsOp{Kind: "clock", T: now + 20})
+				do(jsOp{Kind: "sync"})
+				settle()
+				do(jsOp{Kind: "clock", T: now + 30})
+				do(jsOp{Kind: "sync"})
+			case "F10-kill-conflict-leaves-unrecorded-task":
+				// the witness of c12_killed_job_leaves_no_task_alive_refuted
+				settle()
+				do(jsOp{Kind: "kill", T: im.api.now()})
+				do(jsOp{Kind: "sync"}) // cached Job without the kill timestamp: creates the task; the status write conflicts
+				settle()
+				do(jsOp{Kind: "clock", T: now + 5})
+				do(jsOp{Kind: "sync"})
+				settle()
+				do(jsOp{Kind: "sync"})
+				settle()
+				do(jsOp{Kind: "sync"})
+			case "S-pending-timeout-then-succeeds-while-terminating":
+				// the task is killed by the pending timeout (tombstone: Killed / PendingTimeout), but
+				// its container still starts and exits 0 during the grace period: the index has
+				// succeeded, the tombstone must say so, and no retry may follow once the Pod is gone
+				settle()
+				do(jsOp{Kind: "sync"})
+				do(jsOp{Kind: "kubelet", Name: p0, Step: "schedule"})
+				settle()
+				do(jsOp{Kind: "sync"})
+				do(jsOp{Kind: "clock", T: now + 901})
+				settle()
+				do(jsOp{Kind: "sync"})
+				settle()
+				do(jsOp{Kind: "sync"})
+				do(jsOp{Kind: "kubelet", Name: p0, Step: "run"})
+				do(jsOp{Kind: "clock", T: now + 903})
+				do(jsOp{Kind: "kubelet", Name: p0, Step: "succeed"})
+				settle()
+				do(jsOp{Kind: "sync"})
+				settle()
+				do(jsOp{Kind: "kubelet", Name: p0, Step: "terminate"})
+				settle()
+				do(jsOp{Kind: "sync"})
+				settle()
+				do(jsOp{Kind: "sync"})
+				do(jsOp{Kind: "clock", T: now + 1000})
+				settle()
+				do(jsOp{Kind: "sync"})
+				settle()
+				do(jsOp{Kind: "sync"})
 			case "S-deleted-before-first-task":
 				// the user deletes a started Job before the controller's first pass: nothing may be
 				// created for a Job that is being deleted, and the Job goes away without tasks
